@@ -10,11 +10,14 @@ produced it; wrong verdicts carry that text in their signature.
 
 from __future__ import annotations
 
+import contextlib
+import signal
+
 import numpy as np
 from hypothesis import strategies as st
 
 from tqv import gen, ref
-from tqv.core import HarnessError, Inconclusive, SubCheck, Violation, canon, classify_exception, time_limit
+from tqv.core import HarnessError, Inconclusive, SubCheck, Violation, canon, classify_exception
 from tqv.props import _c15_helpers as H
 
 PROPERTY = "C15"
@@ -37,7 +40,8 @@ RULE = (
 ASSUMPTIONS = [
     "density matrices are exactly Hermitian ((M+M^dagger)/2) with unit trace; has_symmetric_extension is only given unit-trace input",
     "predicates are asserted by margin only: lambda_min(PT) >= -1e-12 counts as PPT, <= -1e-3 as NPT; is_ppt with tolerance tol is asserted when lambda_min >= -tol/10 or <= -10*tol",
-    "PPT-entangled states (tiles, Horodecki) and random PPT states above 6 dimensions are never asserted separable or entangled; only the invariance of their verdict is asserted",
+    "PPT-entangled states (tiles, Horodecki) and random PPT states above 6 dimensions are never asserted separable or entangled; only the invariance of their verdict under local unitaries / party exchange is asserted (a changed verdict means one of two equivalent states got a wrong answer)",
+    "wrong verdicts are keyed by the source text of the return statement that produced them plus a domain tag (d<=6 / d>6; ppt-shortcut / closed-form / sdp domain); exceptions raised where d1*d2 <= 6 or in the ppt-shortcut domain get the tag as a prefix, so that the open findings about larger dimensions cannot absorb them",
     "dim omitted is used only for equal local dimensions; the scalar form d means [d, N/d]",
     "in_separable_ball is given a Hermitian PSD matrix or a 1-D vector of eigenvalues; (n,1) / (1,n) 2-D vectors are not generated (np.diag of a 2-D column extracts one entry and the call raises)",
     "has_symmetric_extension level 2 is generated for 2x2, 2x3, 3x2, 3x3, 2x4, 4x2 only (3x4 and 4x4 need one SDP of 20-40 s CPU each)",
@@ -62,6 +66,31 @@ def _event(text):
 # observe once, label and judge: the traced call runs inside nontrivial() (which the runner calls first) and its
 # result is handed to check() through a one-slot memo, so that the evidence can list cases per return site.
 # ------------------------------------------------------------------------------------------
+class _Expired(BaseException):
+    pass
+
+
+@contextlib.contextmanager
+def _limit(seconds):
+    """Per-case time limit for everything that may enter an SDP solver.  Unlike a one-shot alarm the timer repeats
+    every 5 s: an exception raised by the handler inside a callback whose errors Python ignores (gc callbacks,
+    __del__) is swallowed, and a one-shot limit would then be lost for the rest of the case."""
+    armed = [True]
+
+    def handler(signum, frame):
+        if armed[0]:
+            raise _Expired()
+
+    old = signal.signal(signal.SIGALRM, handler)
+    signal.setitimer(signal.ITIMER_REAL, seconds, 5.0)
+    try:
+        yield
+    finally:
+        armed[0] = False
+        signal.setitimer(signal.ITIMER_REAL, 0)
+        signal.signal(signal.SIGALRM, old)
+
+
 class Traced:
     def __init__(self, name, observe, judge, label, exc_domain=None):
         self.name, self.observe, self.judge, self.label = name, observe, judge, label
@@ -73,17 +102,16 @@ class Traced:
 
     def _run(self, case):
         try:
-            return ("ok", self.observe(case))
+            with _limit(CASE_TIMEOUT):
+                return ("ok", self.observe(case))
+        except _Expired:
+            return ("exc", Inconclusive("timeout"))
         except Exception as exc:  # noqa: BLE001
             return ("exc", exc)
 
     def nontrivial(self, case):
         key = canon(case)
-        try:
-            with time_limit(CASE_TIMEOUT):
-                out = self._run(case)
-        except Inconclusive as inc:
-            out = ("exc", inc)
+        out = self._run(case)
         self._memo = (key, out)
         if out[0] == "ok":
             return self.label(case, out[1])
@@ -427,6 +455,7 @@ def _observe_inv(case):
     spec = case["state"]
     d = list(spec["d"])
     rho = H.build_state(spec)
+    lam = H.lam_min_pt(rho, d)
     calls = []
     v, s = H.SEP_TRACER.call(rho, d)
     calls.append(("original", bool(v), s))
@@ -436,19 +465,25 @@ def _observe_inv(case):
     src = rot if case["both"] else rho
     v, s = H.SEP_TRACER.call(H.exchange_parties(src, d), d[::-1])
     calls.append(("exchange+lu" if case["both"] else "exchange", bool(v), s))
-    return {"calls": calls}
+    return {"calls": calls, "lam": lam}
 
 
 def _judge_inv(case, obs):
-    (t0, v0, s0) = obs["calls"][0]
-    d = case["state"]["d"]
+    spec = case["state"]
+    d, fam = spec["d"], spec["fam"]
+    # where the construction fixes the answer, each of the three verdicts is judged on its own first (so that a
+    # wrong verdict on a transformed copy is reported as what it is, under the same signature as in the soundness
+    # sub-checks); the comparison below then only matters for states of unknown separability
     for tag, v, s in obs["calls"]:
-        _event(f"{d[0]}x{d[1]}:{case['state']['fam']}:{v}@{s}")
+        _judge_sound({"state": spec, "dimform": f"list,{tag}"}, {"lam": obs["lam"], "verdict": v, "site": s})
+    (t0, v0, s0) = obs["calls"][0]
     for tag, v, s in obs["calls"][1:]:
         if v != v0:
+            s_true, s_false = (s0, s) if v0 else (s, s0)
             raise Violation(
-                f"is_separable changes its verdict under {tag}: {v0} from `{s0}` on the original {d[0]}x{d[1]} {case['state']['fam']} state, {v} from `{s}` after the transformation",
-                f"variant[{tag.split('+')[0]}]:{v0}@{s0}|{v}@{s}",
+                f"is_separable changes its verdict under {tag}: {v0} from `{s0}` on the original {d[0]}x{d[1]} {fam} state "
+                f"(lambda_min(PT) = {obs['lam']:.3e}), {v} from `{s}` after the transformation",
+                f"variant[{_dom(d)}]:True@{s_true}|False@{s_false}",
             )
 
 
@@ -605,12 +640,12 @@ SYMEXT_NONPPT = Traced("symext_nonppt", _observe_symext, _judge_symext, _label_s
 
 SUBCHECKS = [
     SubCheck("ppt_definition", check_ppt_definition, _pptdef_case, nt_pptdef, quick=3000, thorough=60000),
-    SubCheck("sep_sound_main", SOUND_MAIN.check, _sound_main_case, SOUND_MAIN.nontrivial, quick=1600, thorough=24000, case_timeout=CASE_TIMEOUT),
-    SubCheck("sep_sound_3x3_deep", SOUND_DEEP.check, _sound_deep_case, SOUND_DEEP.nontrivial, quick=32, thorough=480, case_timeout=CASE_TIMEOUT),
-    SubCheck("sep_sound_big", SOUND_BIG.check, _sound_big_case, SOUND_BIG.nontrivial, quick=1200, thorough=20000, case_timeout=CASE_TIMEOUT),
-    SubCheck("sep_invariance", INVARIANCE.check, _inv_case, INVARIANCE.nontrivial, quick=240, thorough=3600, case_timeout=CASE_TIMEOUT),
+    SubCheck("sep_sound_main", SOUND_MAIN.check, _sound_main_case, SOUND_MAIN.nontrivial, quick=1600, thorough=24000, case_timeout=CASE_TIMEOUT + 30),
+    SubCheck("sep_sound_3x3_deep", SOUND_DEEP.check, _sound_deep_case, SOUND_DEEP.nontrivial, quick=32, thorough=480, case_timeout=CASE_TIMEOUT + 30),
+    SubCheck("sep_sound_big", SOUND_BIG.check, _sound_big_case, SOUND_BIG.nontrivial, quick=1200, thorough=20000, case_timeout=CASE_TIMEOUT + 30),
+    SubCheck("sep_invariance", INVARIANCE.check, _inv_case, INVARIANCE.nontrivial, quick=240, thorough=3600, case_timeout=CASE_TIMEOUT + 30),
     SubCheck("separable_ball", check_ball, _ball_case, nt_ball, quick=2000, thorough=40000),
-    SubCheck("symext_separable", SYMEXT.check, _symext_case, SYMEXT.nontrivial, quick=800, thorough=12000, case_timeout=CASE_TIMEOUT),
-    SubCheck("symext_separable_sdp", SYMEXT_SDP.check, _symext_sdp_case, SYMEXT_SDP.nontrivial, quick=24, thorough=360, case_timeout=CASE_TIMEOUT),
-    SubCheck("symext_nonppt", SYMEXT_NONPPT.check, _symext_nonppt_case, SYMEXT_NONPPT.nontrivial, quick=400, thorough=6000, case_timeout=CASE_TIMEOUT),
+    SubCheck("symext_separable", SYMEXT.check, _symext_case, SYMEXT.nontrivial, quick=800, thorough=12000, case_timeout=CASE_TIMEOUT + 30),
+    SubCheck("symext_separable_sdp", SYMEXT_SDP.check, _symext_sdp_case, SYMEXT_SDP.nontrivial, quick=24, thorough=360, case_timeout=CASE_TIMEOUT + 30),
+    SubCheck("symext_nonppt", SYMEXT_NONPPT.check, _symext_nonppt_case, SYMEXT_NONPPT.nontrivial, quick=400, thorough=6000, case_timeout=CASE_TIMEOUT + 30),
 ]
